@@ -23,7 +23,7 @@ func init() {
 			StatesMean:  "distinct complete schedules; transitions = scheduling points granted",
 			Assumptions: []string{"sequential consistency at hook granularity; unsynchronised accesses between scheduling points are invisible to the scheduler and are the subject of the -race pass", "preemption-bounded above L1: schedules needing more preemptions than the bound are not explored"},
 		},
-		QuickBudget: 80 * time.Second, ThoroughBudget: 14 * time.Minute, CrashIsViolation: true, ProcsPerWorker: 1, RacePass: true,
+		QuickBudget: 180 * time.Second, ThoroughBudget: 14 * time.Minute, CrashIsViolation: true, ProcsPerWorker: 1, RacePass: true,
 		Run: runC18,
 	})
 }
